@@ -16,6 +16,20 @@ use std::path::{Path, PathBuf};
 
 const CRATES: &[&str] = &["cbc", "pcbc", "ige", "cfb-mode", "cfb8", "ofb", "ctr", "belt-ctr", "cts"];
 
+/// assertion macros become calls `name!(args)` with their arguments as expressions (so that the interpreter can give
+/// them their meaning: panic unless the condition holds); every other macro stays an opaque token string
+fn mac_expr(mac: &syn::Macro, n: usize) -> String {
+    let name = toks(&mac.path);
+    const ASSERTS: [&str; 6] = ["assert", "assert_eq", "assert_ne", "debug_assert", "debug_assert_eq", "debug_assert_ne"];
+    if ASSERTS.contains(&name.as_str()) {
+        if let Ok(args) = mac.parse_body_with(syn::punctuated::Punctuated::<syn::Expr, syn::Token![,]>::parse_terminated) {
+            let xs: Vec<String> = args.iter().map(|a| expr(a, n)).collect();
+            return format!("(ECall {} [{}])", coq_str(&format!("{}!", name)), xs.join("; "));
+        }
+    }
+    format!("(EMacro {} {})", coq_str(&name), coq_str(&compact(&mac.tokens.to_string())))
+}
+
 fn main() {
     let args: Vec<String> = std::env::args().collect();
     if args.len() != 3 {
@@ -394,7 +408,7 @@ fn stmt(s: &syn::Stmt, n: usize) -> String {
         syn::Stmt::Item(it) => format!("SItem {}", coq_str(&item_head(it))),
         syn::Stmt::Expr(e, semi) => format!("SExpr {} {}", expr(e, n + 2), if semi.is_some() { "true" } else { "false" }),
         syn::Stmt::Macro(m) => {
-            format!("SExpr {} true", with_cfg(&m.attrs, format!("(EMacro {} {})", coq_str(&toks(&m.mac.path)), coq_str(&compact(&m.mac.tokens.to_string())))))
+            format!("SExpr {} true", with_cfg(&m.attrs, mac_expr(&m.mac, n)))
         }
     }
 }
@@ -597,7 +611,7 @@ fn expr0(e: &syn::Expr, n: usize) -> String {
         Try(t) => format!("(ETry {})", expr(&t.expr, n)),
         Return(r) => format!("(EReturn {})", opt_expr(&r.expr, n)),
         Cast(c) => format!("(ECast {} {})", expr(&c.expr, n), coq_str(&toks(&c.ty))),
-        Macro(m) => format!("(EMacro {} {})", coq_str(&toks(&m.mac.path)), coq_str(&compact(&m.mac.tokens.to_string()))),
+        Macro(m) => mac_expr(&m.mac, n),
         Closure(c) => {
             let ps: Vec<String> = c.inputs.iter().map(pat).collect();
             format!("(EClosure [{}] {})", ps.join("; "), expr(&c.body, n))
